@@ -186,6 +186,8 @@ inline vegas_pdf<T> vegas_refine_pdf(vegas_pdf<T> const& pdf, T alpha, std::vect
 {
     using std::fmax;
     using std::fmin;
+    using std::frexp;
+    using std::ldexp;
     using std::log;
     using std::pow;
 
@@ -200,6 +202,21 @@ inline vegas_pdf<T> vegas_refine_pdf(vegas_pdf<T> const& pdf, T alpha, std::vect
     {
         // load the binned sum of squares into 'tmp'
         tmp.assign(data.begin() + (i + 0) * bins, data.begin() + (i + 1) * bins);
+
+        // the sums below overflow for entries close to the largest finite number; only the ratios of the
+        // entries matter, so scale such data by a power of two, which is exact
+        T const largest = *std::max_element(tmp.begin(), tmp.end());
+
+        if (largest > std::numeric_limits<T>::max() / T(4 * bins))
+        {
+            int exponent = 0;
+            frexp(largest, &exponent);
+
+            for (T& entry : tmp)
+            {
+                entry = ldexp(entry, -exponent);
+            }
+        }
 
         // smooth the entries by averaging over the neighbor(s)
         T previous = tmp[0];
